@@ -115,12 +115,14 @@ reg(Spec("C18", "Endpoints are isolated from each other", ["AsamCmp.Props.C18"],
          rule="arbitrary frame histories over 1..4 endpoints sharing device/stream ids, TECMP and short buffers mixed in; the same history projected per endpoint on separate decoders"))
 
 
-reg(Spec("C11", "Setting a field changes that field and nothing else", ["AsamCmp.Props.C11", "AsamCmp.Props.GenChecks"],
-         ["AsamCmp.C11.setField_length", "AsamCmp.C11.get_set_same", "AsamCmp.C11.get_set_other", "AsamCmp.C11.set_frame", "AsamCmp.C11.set_set_comm", "AsamCmp.C11.set_set_same", "AsamCmp.C11.set_get_id", "AsamCmp.C11.tables_wf", "AsamCmp.C11.tables_words_ok", "AsamCmp.C11.tables_alias_overlap", "AsamCmp.C11.C11_all_classes", "AsamCmp.GenChecks.masks_ok"], ["AsamCmp.Props.C11", "AsamCmp.Props.GenChecks"], gen_fld.gen_c11, predicate=gen_fld.pred_c11, selfcheck=gen_fld.selfcheck_fld,
+reg(Spec("C11", "Setting a field changes that field and nothing else", ["AsamCmp.Props.C11", "AsamCmp.Props.GenChecks", "AsamCmp.Props.SrcFieldsA", "AsamCmp.Props.SrcFieldsB", "AsamCmp.Props.SrcFieldsC", "AsamCmp.Props.SrcFieldsD"],
+         ["AsamCmp.C11.setField_length", "AsamCmp.C11.get_set_same", "AsamCmp.C11.get_set_other", "AsamCmp.C11.set_frame", "AsamCmp.C11.set_set_comm", "AsamCmp.C11.set_set_same", "AsamCmp.C11.set_get_id", "AsamCmp.C11.tables_wf", "AsamCmp.C11.tables_words_ok", "AsamCmp.C11.tables_alias_overlap", "AsamCmp.C11.C11_all_classes", "AsamCmp.GenChecks.masks_ok",
+          "AsamCmp.SrcFields.cmphdr_src", "AsamCmp.SrcFields.msghdr_src", "AsamCmp.SrcFields.can_src", "AsamCmp.SrcFields.canfd_src", "AsamCmp.SrcFields.lin_src", "AsamCmp.SrcFields.eth_src", "AsamCmp.SrcFields.analog_src", "AsamCmp.SrcFields.cm_src", "AsamCmp.SrcFields.if_src", "AsamCmp.SrcFields.tecmphdr_src", "AsamCmp.SrcFields.tecmpcan_src", "AsamCmp.SrcFields.tecmplin_src", "AsamCmp.SrcFields.tecmpif_src", "AsamCmp.SrcFields.tecmpcm_src"], ["AsamCmp.Props.C11", "AsamCmp.Props.GenChecks", "AsamCmp.Props.SrcFieldsA", "AsamCmp.Props.SrcFieldsB", "AsamCmp.Props.SrcFieldsC", "AsamCmp.Props.SrcFieldsD"], gen_fld.gen_c11, predicate=gen_fld.pred_c11, selfcheck=gen_fld.selfcheck_fld,
          rule="every class x every field x {all-zero, all-ones, 2 random} backgrounds x all in-range values (exhaustive for fields <= 8 bits quick / <= 16 bits thorough, boundary + random for wider), chains of 1..8 sets; non-trivial = non-zero background or chain; predicate: raw bytes = background with exactly the written bit ranges replaced, every getter = table read",
          assumptions=["float fields travel as 32-bit patterns; NaN patterns are excluded from generation"]))
-reg(Spec("C12", "Headers and payload fields use the ASAM CMP / TECMP wire layout", ["AsamCmp.Props.C11", "AsamCmp.Props.GenChecks"],
-         ["AsamCmp.C11.get_is_be", "AsamCmp.C11.set_is_be", "AsamCmp.C11.defaults_ok", "AsamCmp.C11.C11_all_classes", "AsamCmp.C11.tables_wf", "AsamCmp.GenChecks.sizes_ok", "AsamCmp.GenChecks.offsets_ok", "AsamCmp.GenChecks.masks_ok", "AsamCmp.GenChecks.enums_ok", "AsamCmp.GenChecks.rules_ok"], ["AsamCmp.Props.C11", "AsamCmp.Props.GenChecks"], gen_fld.gen_c12, predicate=gen_fld.pred_c12,
+reg(Spec("C12", "Headers and payload fields use the ASAM CMP / TECMP wire layout", ["AsamCmp.Props.C11", "AsamCmp.Props.GenChecks", "AsamCmp.Props.SrcFieldsA", "AsamCmp.Props.SrcFieldsB", "AsamCmp.Props.SrcFieldsC", "AsamCmp.Props.SrcFieldsD"],
+         ["AsamCmp.C11.get_is_be", "AsamCmp.C11.set_is_be", "AsamCmp.C11.defaults_ok", "AsamCmp.C11.C11_all_classes", "AsamCmp.C11.tables_wf", "AsamCmp.GenChecks.sizes_ok", "AsamCmp.GenChecks.offsets_ok", "AsamCmp.GenChecks.masks_ok", "AsamCmp.GenChecks.enums_ok", "AsamCmp.GenChecks.rules_ok",
+          "AsamCmp.SrcFields.cmphdr_src", "AsamCmp.SrcFields.msghdr_src", "AsamCmp.SrcFields.can_src", "AsamCmp.SrcFields.canfd_src", "AsamCmp.SrcFields.lin_src", "AsamCmp.SrcFields.eth_src", "AsamCmp.SrcFields.analog_src", "AsamCmp.SrcFields.cm_src", "AsamCmp.SrcFields.if_src", "AsamCmp.SrcFields.tecmphdr_src", "AsamCmp.SrcFields.tecmpcan_src", "AsamCmp.SrcFields.tecmplin_src", "AsamCmp.SrcFields.tecmpif_src", "AsamCmp.SrcFields.tecmpcm_src", "AsamCmp.SrcFields.cmphdr_coverage", "AsamCmp.SrcFields.msghdr_coverage", "AsamCmp.SrcFields.can_coverage", "AsamCmp.SrcFields.canfd_coverage", "AsamCmp.SrcFields.lin_coverage", "AsamCmp.SrcFields.eth_coverage", "AsamCmp.SrcFields.analog_coverage", "AsamCmp.SrcFields.cm_coverage", "AsamCmp.SrcFields.if_coverage", "AsamCmp.SrcFields.tecmphdr_coverage", "AsamCmp.SrcFields.tecmpcan_coverage", "AsamCmp.SrcFields.tecmplin_coverage", "AsamCmp.SrcFields.tecmpif_coverage", "AsamCmp.SrcFields.tecmpcm_coverage"], ["AsamCmp.Props.C11", "AsamCmp.Props.GenChecks", "AsamCmp.Props.SrcFieldsA", "AsamCmp.Props.SrcFieldsB", "AsamCmp.Props.SrcFieldsC", "AsamCmp.Props.SrcFieldsD"], gen_fld.gen_c12, predicate=gen_fld.pred_c12,
          rule="default-constructed objects; bytes laid out by hand from the protocol table read through every getter; every field written through the API on a default object, on all-ones and random objects, and twice in a row, compared with the table's big-endian position; variable-length parts laid out by the builders on fresh and on used objects",
          assumptions=["float fields travel as 32-bit patterns; NaN patterns are excluded from generation"]))
 
